@@ -356,7 +356,13 @@ class ServiceClass:
                     f"(Warning - {status[1]})"
                 )
                 self.dimse.send_msg(rsp, cx_id)
-                continue
+                # Only the Repository Query "matching reached response limit"
+                #   warning is followed by further responses, any other
+                #   warning ends the operation like a failure does
+                if rsp.Status == 0xB001:
+                    continue
+
+                return
 
             if status[0] == STATUS_PENDING:
                 # If pending, `dataset` is the Identifier
